@@ -30,6 +30,7 @@ UNARY = [('optional', '{0}.optional()'), ('group', '{0}.group()'), ('groupi', '{
          ('invert', '(~{0}) if hasattr({0}, "_get_verbose_pattern") else {0}.indefinite()')]
 BINARY = [('concat', '{0}.concat({1})'), ('either', '{0}.either({1})'), ('followed_by', '{0}.followed_by({1})'),
           ('enclose', '{0}.enclose({1})'), ('add', '{0} + {1}'), ('concat_empty', '{0}.concat(Pregex())'),
+          ('Either', 'Either({0}, {1})'), ('Concat', 'Concat({0}, {1}, {0})'), ('Enclose', 'Enclose({0}, {1})'), ('FollowedBy', 'FollowedBy({0}, {1})'),
           ('or', '({0} | {1}) if hasattr({0}, "_get_verbose_pattern") and hasattr({1}, "_get_verbose_pattern") else {0}.concat({1}, on_right=False)')]
 STATEFUL = [('compile', '{0}.compile()'), ('gcp_keep', '{0}.get_compiled_pattern(False)'), ('gcp_discard', '{0}.get_compiled_pattern(True)'),
             ('has_match', "{0}.has_match('ab1c')"), ('get_matches', "{0}.get_matches('ab1c')"), ('replace', "{0}.replace('ab1c', 'X')"),
@@ -79,7 +80,7 @@ def events(n_pool, reduced):
         return ev
     ev = []
     un = UNARY[:5] if reduced else UNARY
-    bi = BINARY[:3] if reduced else BINARY
+    bi = (BINARY[:2] + BINARY[6:8]) if reduced else BINARY
     st = (STATEFUL[:3] + STATEFUL[-1:]) if reduced else STATEFUL
     for i in range(n_pool):
         for name, t in un:
